@@ -116,19 +116,31 @@ type spoke struct {
 	origin  map[string][]byte // every path this spoke ever wrote (paths are immutable)
 	db      *sql.DB           // open ledger handle (nil = process not running)
 	ledger  *edgesync.Ledger
-	dirty   bool // the last run crashed: the next one must be a fresh process
+	agent   *edgesync.Agent // the long-lived Agent of the running process (nil = none yet)
+	batch   int             // its BatchSize
+	sw      *switchT        // its transport (delegates to the current pass's controller)
 }
 
-// proc returns the spoke's ledger handle, restarting the "process" (close + re-open the SQLite file,
-// NewLedger) when asked to or when the previous run crashed.
+// switchT is the SyncTransport a long-lived Agent holds; each pass plugs its own controller in.
+type switchT struct{ cur *runCtl }
+
+func (t *switchT) Reconcile(ctx context.Context, hub string, pending []*edgesync.LedgerEntry) (*edgesync.ReconcileResult, error) {
+	return t.cur.Reconcile(ctx, hub, pending)
+}
+func (t *switchT) PutFile(ctx context.Context, hub string, e *edgesync.LedgerEntry, body io.Reader, offset int64) (*edgesync.PutResult, error) {
+	return t.cur.PutFile(ctx, hub, e, body, offset)
+}
+
+// proc returns the spoke's ledger handle; restart = a new process (close + re-open the SQLite file,
+// NewLedger, and the Agent instance is gone).
 func (s *spoke) proc(restart bool) (*sql.DB, *edgesync.Ledger) {
-	if s.db != nil && (restart || s.dirty) {
+	if s.db != nil && restart {
 		s.db.Close()
 		s.db = nil
 	}
 	if s.db == nil {
 		s.db, s.ledger = s.openLedger()
-		s.dirty = false
+		s.agent = nil
 	}
 	return s.db, s.ledger
 }
@@ -494,22 +506,38 @@ var documented = map[string]bool{
 	"pending>skipped": true, "in_flight>skipped": true,
 }
 
-func (w *world) run(sid string, batch, cap int, crashAt int, faults []fault, restart bool) {
+// run performs one agent pass. same = on the SAME long-lived Agent instance as the previous pass of
+// this spoke (a pass whose context was cancelled leaves the process alive); otherwise the process is
+// restarted (ledger re-opened, new Agent). A reused Agent keeps its BatchSize.
+func (w *world) run(sid string, same bool, batch, cap int, crashAt int, faults []fault) {
 	sp := w.spoke(sid)
-	db, ledger := sp.proc(restart)
+	if sp.agent == nil {
+		same = false
+	}
+	db, ledger := sp.proc(!same)
 	rec, err := edgesync.NewReconciler(edgesync.ReconcilerConfig{Index: w.index, Backend: w.hubBE, MaxEntries: cap})
 	must(err)
 	ctx, cancel := context.WithCancel(context.Background())
 	defer cancel()
 	rc := &runCtl{w: w, sp: sp, rec: rec, faults: faults, crashAt: crashAt, cancel: cancel, acked: map[string]bool{}, early: map[string]bool{}}
-	agent, err := edgesync.NewAgent(edgesync.AgentConfig{Ledger: ledger, Transport: rc, Backend: sp.backend, HubID: hubID,
-		SpokeID: sid, MaxAttempts: w.maxAtt, MaxConcurrent: 1, BatchSize: batch, Logger: zerolog.Nop()})
-	must(err)
+	inst := "same"
+	if !same {
+		inst = "new"
+		sp.sw = &switchT{}
+		sp.batch = batch
+		sp.agent, err = edgesync.NewAgent(edgesync.AgentConfig{Ledger: ledger, Transport: sp.sw, Backend: sp.backend, HubID: hubID,
+			SpokeID: sid, MaxAttempts: w.maxAtt, MaxConcurrent: 1, BatchSize: batch, Logger: zerolog.Nop()})
+		must(err)
+	}
+	batch = sp.batch
+	sp.sw.cur = rc
+	agent := sp.agent
+	w.c.Tag("inst:" + inst)
 	cs := "-"
 	if crashAt >= 0 {
 		cs = strconv.Itoa(crashAt)
 	}
-	line := fmt.Sprintf("run %s %d %d %s", sid, batch, cap, cs)
+	line := fmt.Sprintf("run %s %s %d %d %s", sid, inst, batch, cap, cs)
 	for _, f := range faults {
 		line += " " + f.String()
 	}
@@ -526,7 +554,6 @@ func (w *world) run(sid string, batch, cap int, crashAt int, faults []fault, res
 		out = pan
 	case rc.crashed:
 		out = "crashed"
-		sp.dirty = true
 		w.c.Tag("run:crashed")
 	case rerr != nil:
 		out = "err"
@@ -746,11 +773,17 @@ func contentFor(r *vh.Rand, i int) []byte {
 	return b
 }
 
-func (w *world) finish(sids []string, nontrivial bool) {
-	// once faults stop every discovered file must end synced | skipped | failed
+// finish: once faults stop every discovered file must end synced | skipped | failed. The fault-free
+// passes run on the SAME Agent instance that lived through the history (sameAgent) or on a fresh
+// process.
+func (w *world) finish(sids []string, nontrivial bool, sameAgent bool) {
+	mode := "fresh-agent"
+	if sameAgent {
+		mode = "same-agent"
+	}
 	for _, sid := range sids {
 		for i := 0; i < w.maxAtt+1; i++ {
-			w.run(sid, 0, 0, -1, nil, i == 0)
+			w.run(sid, sameAgent || i > 0, 0, 0, -1, nil)
 		}
 		sp := w.spoke(sid)
 		db, _ := sp.proc(false)
@@ -760,17 +793,18 @@ func (w *world) finish(sids []string, nontrivial bool) {
 			var p, st string
 			must(q.Scan(&p, &st))
 			if st != "synced" && st != "skipped" && st != "failed" {
-				w.c.Fail("not-terminated:"+st, fmt.Sprintf("after %d fault-free runs %s is still %s", w.maxAtt+1, p, st), w.replay())
+				w.c.Fail("not-terminated:"+st+":"+mode, fmt.Sprintf("after %d fault-free passes (%s) %s is still %s", w.maxAtt+1, mode, p, st), w.replay())
 			}
 			w.c.Tag("final:" + st)
 		}
 		q.Close()
 	}
+	w.c.Tag("finish:" + mode)
 	w.c.Case(strings.Join(w.ops, "\n"), nontrivial)
 }
 
 // edge grid: one file, one faulted (and possibly crashed) run, then recovery.
-func gridCase(c *vh.Ctx, root string, n *int, f fault, crashAt int, content []byte, pre string) {
+func gridCase(c *vh.Ctx, root string, n *int, f fault, crashAt int, content []byte, pre string, sameAgent bool) {
 	*n++
 	w := newWorld(c, filepath.Join(root, fmt.Sprintf("g%d", *n)), 3)
 	defer w.close()
@@ -778,14 +812,50 @@ func gridCase(c *vh.Ctx, root string, n *int, f fault, crashAt int, content []by
 	w.sput("s1", p, pt, content)
 	switch pre {
 	case "partial": // leave a resume checkpoint first
-		w.run("s1", 0, 0, -1, []fault{{kind: "n"}, {kind: "sh", a: 2}}, true)
+		w.run("s1", false, 0, 0, -1, []fault{{kind: "n"}, {kind: "sh", a: 2}})
 	case "plant":
 		w.hplant("s1", p, []byte{9, 9}, true)
 	case "plant-unindexed":
 		w.hplant("s1", p, []byte{9, 9}, false)
 	}
-	w.run("s1", 0, 0, crashAt, []fault{{kind: "n"}, f}, true)
-	w.finish([]string{"s1"}, f.kind != "n" || crashAt >= 0)
+	w.run("s1", sameAgent, 0, 0, crashAt, []fault{{kind: "n"}, f})
+	w.finish([]string{"s1"}, f.kind != "n" || crashAt >= 0, sameAgent)
+}
+
+// mixed reconcile batch: three pending files, newest first, each with no receipt (N), a fresh receipt
+// whose ack was lost (F), a stale receipt — delivered, ack lost, hub copy vanished — (S) or a
+// compacted receipt (C); then one fault-free pass reconciles all three in one batch.
+func mixCase(c *vh.Ctx, root string, n *int, kinds [3]byte, sameAgent bool) {
+	*n++
+	w := newWorld(c, filepath.Join(root, fmt.Sprintf("m%d", *n)), 3)
+	defer w.close()
+	idx := []int{5, 2, 0} // partition hours descending = page order
+	var paths [3]string
+	for i, fi := range idx {
+		p, pt := pathFor(fi)
+		paths[i] = p
+		w.sput("s1", p, pt, []byte{byte(0x10 + i), 2, 3})
+	}
+	fs := []fault{{kind: "n"}}
+	for _, k := range kinds {
+		if k == 'N' {
+			fs = append(fs, fault{kind: "db"})
+		} else {
+			fs = append(fs, fault{kind: "n", lost: true})
+		}
+	}
+	w.run("s1", false, 0, 0, -1, fs)
+	for i, k := range kinds {
+		switch k {
+		case 'S':
+			w.hdel("s1", paths[i])
+		case 'C':
+			w.hcompact("s1", paths[i], true)
+		}
+	}
+	w.run("s1", sameAgent, 0, 0, -1, nil)
+	w.c.Tag("mix:" + string(kinds[:]))
+	w.finish([]string{"s1"}, true, sameAgent)
 }
 
 func randomCase(c *vh.Ctx, root string, n int, r *vh.Rand) {
@@ -845,9 +915,9 @@ func randomCase(c *vh.Ctx, root string, n int, r *vh.Rand) {
 		if r.Chance(35) {
 			crashAt = r.Intn(14)
 		}
-		w.run(sid, vh.Pick(r, []int{0, 0, 1, 2, 3}), vh.Pick(r, []int{0, 0, 0, 1, 2}), crashAt, fs, r.Chance(60))
+		w.run(sid, r.Chance(50), vh.Pick(r, []int{0, 0, 1, 2, 3}), vh.Pick(r, []int{0, 0, 0, 1, 2}), crashAt, fs)
 	}
-	w.finish(sids, true)
+	w.finish(sids, true, r.Bool())
 }
 
 // ---------------------------------------------------------------- replay of an ops file
@@ -894,16 +964,16 @@ func replayFile(c *vh.Ctx, root, file string) {
 			w.hsweep(f[1], f[2])
 		case "run":
 			crash := -1
-			if f[4] != "-" {
-				crash = atoi(f[4])
+			if f[5] != "-" {
+				crash = atoi(f[5])
 			}
 			var fs []fault
-			for _, t := range f[5:] {
+			for _, t := range f[6:] {
 				ft, err := parseFault(t)
 				must(err)
 				fs = append(fs, ft)
 			}
-			w.run(f[1], atoi(f[2]), atoi(f[3]), crash, fs, true)
+			w.run(f[1], f[2] == "same", atoi(f[3]), atoi(f[4]), crash, fs)
 		case "ledger", "log", "hub":
 			// emitted by run
 		}
@@ -929,8 +999,9 @@ func main() {
 
 	// malformed ops: the model driver must reject what it does not know
 	c.Op("frobnicate s1 x", "bad-op")
-	c.Op("run s1 zero 0 -", "bad-op")
-	c.Op("run s1 0 0 - sh:x", "bad-op")
+	c.Op("run s1 new zero 0 -", "bad-op")
+	c.Op("run s1 old 0 0 -", "bad-op")
+	c.Op("run s1 same 0 0 - sh:x", "bad-op")
 
 	// corpus first
 	if ents, err := os.ReadDir("/verif/corpus/C27"); err == nil {
@@ -959,12 +1030,27 @@ func main() {
 					}
 					f2 := f
 					f2.lost = lost
-					gridCase(c, root, &n, f2, cr, content, pre)
+					if cr >= 0 {
+						// a cancelled pass: continue on the same long-lived Agent AND as a restarted process
+						gridCase(c, root, &n, f2, cr, content, pre, true)
+						gridCase(c, root, &n, f2, cr, content, pre, false)
+					} else {
+						gridCase(c, root, &n, f2, cr, content, pre, n%2 == 0)
+					}
 				}
 			}
 		}
 	}
-	gridCase(c, root, &n, fault{kind: "n"}, -1, []byte{}, "") // empty file
+	gridCase(c, root, &n, fault{kind: "n"}, -1, []byte{}, "", false) // empty file
+
+	// mixed reconcile batches: every assignment of {no receipt, fresh, stale, compacted} to 3 entries
+	for _, a := range []byte("NFSC") {
+		for _, b := range []byte("NFSC") {
+			for _, d := range []byte("NFSC") {
+				mixCase(c, root, &n, [3]byte{a, b, d}, n%2 == 0)
+			}
+		}
+	}
 
 	// random histories
 	cases := 250
